@@ -55,6 +55,8 @@ type Contract struct {
 	Witness  []*Clause
 	Uses     []string
 	RepInvs  []*Clause
+	FrozenClock bool
+	ReadsClock  bool
 }
 
 // FindingSplit: a known finding attached to an ensures/site label; Disc is the
@@ -76,6 +78,7 @@ type PureFn struct {
 	Result string
 	Body   Expr // nil: uninterpreted
 	Pkg    *types.Package
+	Rec    bool // recursive: heap-parametric function symbol with one-step unfolding (fuel)
 }
 
 type Axiom struct {
@@ -111,7 +114,7 @@ type Contracts struct {
 	Lines   int
 }
 
-var kwRe = regexp.MustCompile(`^(func|prop|requires|ensures|modifies|loop|site|trusted|inline|let|pure|axiom|lemma|invariant|nopanic|maypanic|finding|ispure|witness|uses|repinv)\b`)
+var kwRe = regexp.MustCompile(`^(func|prop|requires|ensures|modifies|loop|site|trusted|inline|let|pure|axiom|lemma|invariant|nopanic|maypanic|finding|ispure|witness|uses|repinv|frozenclock|readsclock|rec)\b`)
 
 func LoadContracts(p *Program) (*Contracts, error) {
 	cs := &Contracts{Fns: map[string]*Contract{}, Pures: map[string]*PureFn{}, RepInvs: map[string]*RepInv{}}
@@ -304,6 +307,10 @@ func (cs *Contracts) parseFile(path string, pkg *types.Package) error {
 				return err
 			}
 			cur.RepInvs = append(cur.RepInvs, c)
+		case "frozenclock":
+			cur.FrozenClock = true
+		case "readsclock":
+			cur.ReadsClock = true
 		case "uses":
 			cur.Uses = append(cur.Uses, strings.Fields(rest)...)
 		case "trusted":
@@ -344,13 +351,13 @@ func (cs *Contracts) parseFile(path string, pkg *types.Package) error {
 				return fail(rc, "let outside func")
 			}
 			cur.Lets = append(cur.Lets, letDef{strings.TrimSpace(rest[:j]), e})
-		case "pure":
+		case "pure", "rec":
 			// pure name(a T, b U) R [= expr]
 			m := regexp.MustCompile(`^(\w+)\(([^)]*)\)\s*([^=]*?)\s*(=\s*(.*))?$`).FindStringSubmatch(rest)
 			if m == nil {
 				return fail(rc, "malformed pure")
 			}
-			pf := &PureFn{Name: m[1], Result: strings.TrimSpace(m[3]), Pkg: pkg}
+			pf := &PureFn{Name: m[1], Result: strings.TrimSpace(m[3]), Pkg: pkg, Rec: kw == "rec"}
 			for _, ps := range strings.Split(m[2], ",") {
 				ps = strings.TrimSpace(ps)
 				if ps == "" {
